@@ -197,20 +197,23 @@ def afterH (t : String) : String :=
 
 def noBlanks (t : String) : String := String.ofList (t.toList.filter (· != ' '))
 
-/-- `BasicBinaryExp.from_exp_op_and_fragments(exp, op, fragments)`; `op` is not used -/
+def fragPart : Val → Except String (String × Val)
+  | .frag (.e (.op o)) e => pure (o, e)
+  | _ => throw "AttributeError"
+
+/-- one step of the loop: the earlier fragment's operator, and the earlier operand combined with
+what has been built so far -/
+def nestStep (cur : String × Val) (prior : String × Val) : String × Val :=
+  (prior.1, Val.e (.bin false (toExpr prior.2) cur.1 (toExpr cur.2)))
+
+/-- `BasicBinaryExp.from_exp_op_and_fragments(exp, op, fragments)`; `op` is not used.  The loop
+runs from the last fragment to the first, so the object it builds is nested to the right -/
 def fromFragments (exp : Val) (frags : List Val) : Except String Val := do
-  let opText (v : Val) : Except String String := match v with
-    | .e (.op o) => pure o
-    | _ => throw "AttributeError"
-  let parts ← frags.mapM (fun f => match f with
-    | .frag op e => do pure (← opText op, e, op)
-    | _ => throw "AttributeError")
+  let parts ← frags.mapM fragPart
   match parts.reverse with
   | [] => throw "BinaryExpressionException"
   | last :: before =>
-      -- fold from the right: current = (op of the earlier fragment, Bin(earlier.exp2, current.op, current.exp2))
-      let cur := before.foldl (fun (cur : String × Val) (prior : String × Val × Val) =>
-        (prior.1, Val.e (.bin false (toExpr prior.2.1) cur.1 (toExpr cur.2)))) (last.1, last.2.1)
+      let cur := before.foldl nestStep last
       pure (.e (.bin false (toExpr exp) cur.1 (toExpr cur.2)))
 
 /-- `visit_binary_exp` -/
@@ -237,16 +240,18 @@ def foldOps (boolean : Bool) (vs : List Val) : Except String Val := do
 
 /-- `BasicDimStatement(dim_vars)`: array entries get every bound + 1 and lose the `arr_` prefix
 (the emission adds it again) -/
+def bumpBound : Expr → Except String Expr
+  | .lit (.int m) _ => pure (Expr.lit (.int (m + 1)) false)
+  | .lit (.flt _) _ => throw "unmodelled-float-bound"
+  | .lit (.str _) _ => throw "TypeError"
+  | .hex h _ => pure (Expr.hex (h + 1) false)
+  | _ => throw "AttributeError"
+
 def dimEntry (v : Val) : Except String Expr :=
   match v with
   | .e (.var n b) => pure (.var n b)
   | .e (.arr (.var n _) (.mk _ idx) isS) => do
-      let idx' ← idx.mapM (fun i => match i with
-        | .lit (.int m) _ => pure (Expr.lit (.int (m + 1)) false)
-        | .lit (.flt _) _ => throw "unmodelled-float-bound"
-        | .lit (.str _) _ => throw "TypeError"
-        | .hex h _ => pure (Expr.hex (h + 1) false)
-        | _ => throw "AttributeError")
+      let idx' ← idx.mapM bumpBound
       -- BasicArrayRef(BasicVar(name[4:]), …) puts `arr_` in front again
       pure (.arr (.var ("arr_" ++ (n.drop 4).toString) isS) (.mk true idx') isS)
   | _ => throw "AttributeError"
@@ -261,6 +266,41 @@ def stmtsOf (vs : List Val) (multi : Bool) : Val := .stmt (.stmts multi (vs.map 
 def listOf : Val → List Val
   | .list vs => vs
   | _ => []
+
+def visitInputStatement (vs : List Val) : Except String Val :=
+  let k := kid vs
+  let isLine := !(k 0 matches .str "")
+  let msg : Expr := match k 4 with
+    | .e (.lit (.str s) _) => .lit (.str (if isLine then s else s ++ "? ")) true
+    | _ => .lit (.str (if isLine then "" else "? ")) true
+  pure (.stmt (.input (some msg) (toExprs (k 6 :: listOf (k 8)))))
+
+def visitCls (vs : List Val) : Except String Val :=
+  pure (.stmt (.cls (if isExpression (kid vs 2) then some (toExpr (kid vs 2)) else Option.none) []))
+
+def visitHscreen (vs : List Val) : Except String Val :=
+  pure (runCall "run ecb_hscreen" [if isExpression (kid vs 2) then kid vs 2 else litInt 0, display])
+
+def visitHcls (vs : List Val) : Except String Val :=
+  pure (runCall "run ecb_hcls" [if isExpression (kid vs 2) then kid vs 2 else litInt (-1), display])
+
+def visitNumLiteral (env : Env) (text : String) : Except String Val :=
+  match env.floatRepr (noBlanks text) with
+  | some r => pure (litFlt r)
+  | Option.none => throw "ValueError"
+
+def visitIntLiteral (text : String) : Except String Val :=
+  match (noBlanks text).toInt? with
+  | some n => pure (litInt n)
+  | Option.none => throw "ValueError"
+
+def visitHexLiteral (isFloat : Bool) (text : String) : Except String Val := do
+  pure (.e (.hex (← parseHex (afterH text)) isFloat))
+
+def visitStrLiteral (text : String) : Val := litStr ((text.drop 1).toString.dropEnd 1).toString true
+def visitVar (text : String) : Val := varOf (text.take 2).toString false
+def visitStrVar (text : String) : Val := varOf (((text.dropEnd 1).toString.take 2).toString ++ "$") true
+def visitClear (text : String) : Val := .stmt (.comment (" " ++ pyStrip text))
 
 /-- methods the visitor class defines, by rule name; `generic` otherwise -/
 def visitNamed (env : Env) (name text : String) (vs : List Val) : Except String Val := do
@@ -348,14 +388,10 @@ def visitNamed (env : Env) (name text : String) (vs : List Val) : Except String 
       pure (.e (.fexp false (← lookup env.strFunctionsToStatements (← nodeText (k 0))) (.mk true []) true Option.none))
   | "multi_line" => pure (.list (k 0 :: listOf (k 2)))
   | "multi_line_element" => pure (k 1)
-  | "num_literal" => match env.floatRepr (noBlanks text) with
-      | some r => pure (litFlt r)
-      | Option.none => throw "ValueError"
-  | "int_literal" => match (noBlanks text).toInt? with
-      | some n => pure (litInt n)
-      | Option.none => throw "ValueError"
-  | "int_hex_literal" => do pure (.e (.hex (← parseHex (afterH text)) false))
-  | "hex_literal" => do pure (.e (.hex (← parseHex (afterH text)) true))
+  | "num_literal" => visitNumLiteral env text
+  | "int_literal" => visitIntLiteral text
+  | "int_hex_literal" => visitHexLiteral false text
+  | "hex_literal" => visitHexLiteral true text
   | "unop_exp" => match k 0 with
       | .e (.op o) => pure (.e (.un false o (toExpr (k 2))))
       | _ => throw "AttributeError"
@@ -383,10 +419,10 @@ def visitNamed (env : Env) (name text : String) (vs : List Val) : Except String 
       pure (.stmt (.assign (truthy (k 0)) (toExpr (k 2)) (.lit (.str (t.drop 1).toString) false) []))
   | "statements_elements" => pure (.list (vs.filter truthy))
   | "statements_element" => pure (if truthy (k 2) then k 2 else .none)
-  | "str_literal" => pure (litStr ((text.drop 1).toString.dropEnd 1).toString true)
+  | "str_literal" => pure (visitStrLiteral text)
   | "val_exp" => pure (if vs.length < 2 then k 0 else .node text)
-  | "var" => pure (varOf (text.take 2).toString false)
-  | "str_var" => pure (varOf (((text.dropEnd 1).toString.take 2).toString ++ "$") true)
+  | "var" => pure (visitVar text)
+  | "str_var" => pure (visitStrVar text)
   | "print_statement" => match k 2 with
       | .pargs a => pure (.stmt (.print (toExprs a) []))
       | _ => throw "AttributeError"
@@ -399,7 +435,7 @@ def visitNamed (env : Env) (name text : String) (vs : List Val) : Except String 
   | "print_control" => pure (.e (.ctl text))
   | "sound" => pure (.stmt (.sound (toExpr (k 2)) (toExpr (k 6)) []))
   | "poke_statement" => pure (.stmt (.poke (toExpr (k 2)) (toExpr (k 6)) []))
-  | "cls" => pure (.stmt (.cls (if isExpression (k 2) then some (toExpr (k 2)) else Option.none) []))
+  | "cls" => visitCls vs
   | "statement2" => do pure (runCall (← lookup env.statements2 (← nodeText (k 0))) [k 4, k 8])
   | "statement3" => do pure (runCall (← lookup env.statements3 (← nodeText (k 0))) [k 4, k 8, k 12])
   | "go_statement" => do
@@ -440,14 +476,9 @@ def visitNamed (env : Env) (name text : String) (vs : List Val) : Except String 
   | "dim_statement" => do
       let entries ← (listOf (k 2)).mapM dimEntry
       pure (.stmt (.dim entries false 32 [] []))
-  | "clear_statement" => pure (.stmt (.comment (" " ++ pyStrip text)))
+  | "clear_statement" => pure (visitClear text)
   | "read_statement" => pure (.stmt (.read (toExprs (k 2 :: listOf (k 4))) [] 0))
-  | "input_statement" =>
-      let isLine := !(k 0 matches .str "")
-      let msg : Expr := match k 4 with
-        | .e (.lit (.str s) _) => .lit (.str (if isLine then s else s ++ "? ")) true
-        | _ => .lit (.str (if isLine then "" else "? ")) true
-      pure (.stmt (.input (some msg) (toExprs (k 6 :: listOf (k 8)))))
+  | "input_statement" => visitInputStatement vs
   | "input_str_literal" => pure (k 0)
   | "varptr_expr" => pure (.e (.varptr (toExpr (k 4))))
   | "instr_expr" =>
@@ -467,8 +498,8 @@ def visitNamed (env : Env) (name text : String) (vs : List Val) : Except String 
   | "palette_reset_statement" => do
       pure (runCall ("run ecb_set_palette_" ++ (← nodeText (k 2)).toLower) [display])
   | "palette_statement" => pure (runCall "run ecb_set_palette" [k 2, k 6, display])
-  | "hscreen_statement" => pure (runCall "run ecb_hscreen" [if isExpression (k 2) then k 2 else litInt 0, display])
-  | "hcls_statement" => pure (runCall "run ecb_hcls" [if isExpression (k 2) then k 2 else litInt (-1), display])
+  | "hscreen_statement" => visitHscreen vs
+  | "hcls_statement" => visitHcls vs
   | "hcircle_prefix" => match k 2 with
       | .coords x y => pure (.circle x y (k 5) Option.none)
       | _ => throw "AttributeError"
